@@ -1125,6 +1125,12 @@ fn execute(case: &Value, fill: bool) -> Result<Exec, String> {
 }
 
 fn run(case: &Value) -> Obs {
+    if case.get("selftest").is_some() {
+        // the auditing allocator checks itself in a child process (corpus/C18/selftest.jsonl: replayed on every run)
+        let ok = std::env::current_exe().ok().and_then(|e| std::process::Command::new(e).arg("selftest").stdout(std::process::Stdio::null()).status().ok()).map(|s| s.code() == Some(0)).unwrap_or(false);
+        let o = Obs::new(json!({"selftest": if ok { "ok" } else { "failed" }})).tag("selftest");
+        return if ok { o } else { o.fail("the auditing allocator does not detect a layout mismatch / double free / leak", "audit-selftest") };
+    }
     // first execution warms the lazily initialised statics of the library (they would look like leaks)
     let first = match execute(case, false) {
         Ok(e) => e,
